@@ -24,6 +24,8 @@ def main():
             fs.append(O.c03_late_nack_modack)
         T.oracle = (lambda fs, T: lambda ex, S: [x for f in fs for x in f(ex, S, T)])(fs, T)
         run_transition(chk, prog, T, max_paths=300000)
+    from checks.c11 import reader_applies_every_ack
+    reader_applies_every_ack(chk, prog)      # the streaming ack path (reader closure of MessageStreamer.Go)
     chk.bounds = {'tables': 'per obligation (see per_obligation.bounds)', 'steps': 1, 'pre-state': 'arbitrary rows satisfying the representation invariant'}
     chk.finish()
 
